@@ -19,6 +19,7 @@ import (
 
 	"verifharness/core"
 	"verifharness/kit"
+	"verifharness/props/c19"
 )
 
 type prop struct{}
@@ -28,7 +29,7 @@ func init() { core.Register(prop{}) }
 func (prop) ID() string    { return "C07" }
 func (prop) Level() string { return "exploration" }
 func (prop) Rule() string {
-	return "scenarios = pipeline stream|from()|log('in') [|eval|where] -> 1-2 outputs drawn from {influxDBOut (recording fake client; buffer 1/10/1000/5000, flushInterval 10ms/1h), alert with a named topic + recording handler (fast/slow), alert with .log() on its anonymous topic, plain sink, kapacitorLoopback into a second task} x 1 200-4 000 points with unique ids (more than one 1 000-slot edge buffer) x output gated shut so that a backlog exists when the stop is requested, the gate opened before / 30 ms after the stop call x stop kind {StopTask, DeleteTask, daemon sequence Drain+StopTasks+Close (+alert service Close)}; failure variant: a node in the middle of the pipeline panics at the k-th point while writers continue. " +
+	return "scenarios = pipeline stream|from()|log('in') [|eval|where] -> 1-2 outputs drawn from {influxDBOut (recording fake client; buffer 1/10/1000/5000, flushInterval 10ms/1h), a UDF (in-process echo agent behind in-memory pipes) followed by a gated sink, alert with a named topic + recording handler (fast/slow), alert with .log() on its anonymous topic, plain sink, kapacitorLoopback into a second task} x 1 200-4 000 points with unique ids (more than one 1 000-slot edge buffer) x output gated shut so that a backlog exists when the stop is requested, the gate opened before / 30 ms after the stop call x stop kind {StopTask, DeleteTask, daemon sequence Drain+StopTasks+Close (+alert service Close)}; failure variant: a node in the middle of the pipeline panics at the k-th point while writers continue. " +
 		"Oracle: conservation by id - every point that was acknowledged AND had entered the task (seen at the sink under from(); for the daemon sequence: every acknowledged point) is at every output exactly once, per-group order kept; termination - the stop call returns (30 s watchdog with all gates open), afterwards no goroutine with kapacitor frames remains beyond the census taken before StartTask, et.Wait() has returned; failure variant: the task ends with the node's error, stop returns, writers are never blocked, census returns to the baseline. " +
 		"Non-trivial: a scenario whose backlog at the moment of the stop call (points accepted but not yet at the output) was >= 100"
 }
@@ -94,7 +95,8 @@ func census() (int, string) {
 	c := 0
 	var sample []string
 	for _, g := range gs {
-		if strings.Contains(g, "github.com/influxdata/kapacitor") && !strings.Contains(g, "verifharness/props/") {
+		// udf/agent is the UDF process' side of the protocol, played by the harness
+		if strings.Contains(g, "github.com/influxdata/kapacitor") && !strings.Contains(g, "verifharness/props/") && !strings.Contains(g, "kapacitor/udf/agent.") {
 			c++
 			sample = append(sample, g)
 		}
@@ -191,12 +193,16 @@ func runStop(x *core.Ctx, r *core.Rng) {
 	}()
 	fi := kit.NewFakeInflux()
 	env.TM.InfluxDBService = fi
+	env.TM.UDFService = c19.NewEchoUDFService(core.NewRng(r.Uint64(), 19), false)
 	var outs []output
 	var kinds []string
 	script := "var src = stream|from().measurement('m').groupBy('g')|log().prefix('in')" + mid + "\n"
 	needLoopTask := false
 	for i := 0; i < nout; i++ {
-		k := r.Pick([]string{"influx", "influx", "alert-topic", "alert-log", "sink", "loopback"})
+		k := r.Pick([]string{"influx", "influx", "alert-topic", "alert-log", "sink", "loopback", "udf", "udf"})
+		if k == "udf" && contains(kinds, "udf") {
+			k = "sink"
+		}
 		if k == "loopback" && (stopKind == "daemon" || needLoopTask) {
 			k = "sink"
 		}
@@ -256,6 +262,11 @@ func runStop(x *core.Ctx, r *core.Rng) {
 			s := env.Rec.Sink(id)
 			s.CloseGate()
 			outs = append(outs, output{kind: k, text: fmt.Sprintf("src|log().prefix('%s')", id),
+				ids: func() []int64 { return sinkIDs(s) }, open: s.OpenGate})
+		case "udf":
+			s := env.Rec.Sink("udfout")
+			s.CloseGate()
+			outs = append(outs, output{kind: k, text: "src@echo()|log().prefix('udfout')",
 				ids: func() []int64 { return sinkIDs(s) }, open: s.OpenGate})
 		case "loopback":
 			needLoopTask = true
